@@ -368,6 +368,98 @@ enum Case {
         #[serde(default)]
         tag: String,
     },
+    /// large-scope paths: each path is a list of [count, chunk] pieces (the
+    /// concatenation of `count` copies of each chunk).  `equiv`: the paths are
+    /// spellings of one path.  `live`: sent over TCP to the live server
+    /// instead of calling lookup_route.  `dims`: what is large, for the tags.
+    Large {
+        table: usize,
+        #[serde(default)]
+        equiv: bool,
+        #[serde(default)]
+        live: bool,
+        paths: Vec<Vec<(usize, String)>>,
+        #[serde(default)]
+        dims: Vec<String>,
+        #[serde(default)]
+        tag: String,
+    },
+}
+
+type Pieces = Vec<(usize, String)>;
+
+fn expand_pieces(p: &Pieces) -> String {
+    let mut s = String::with_capacity(p.iter().map(|(n, c)| n * c.len()).sum());
+    for (n, c) in p {
+        for _ in 0..*n {
+            s.push_str(c);
+        }
+    }
+    s
+}
+
+fn g_pieces(p: &[(usize, Vec<u8>)]) -> String {
+    g_list(p, |(n, c)| format!("({},{})", n, g_bytes(c)))
+}
+
+/// run-length form of a byte string: repeated chunks of period 1..4 are
+/// folded, everything else is kept literally
+fn rle_bytes(b: &[u8]) -> Vec<(usize, Vec<u8>)> {
+    let mut out: Vec<(usize, Vec<u8>)> = vec![];
+    let mut lit: Vec<u8> = vec![];
+    let mut i = 0;
+    while i < b.len() {
+        let mut best = (0usize, 0usize); // (period, repeats)
+        for p in 1..=4usize {
+            if i + p > b.len() {
+                break;
+            }
+            let mut k = 1;
+            while i + (k + 1) * p <= b.len() && b[i + k * p..i + (k + 1) * p] == b[i..i + p] {
+                k += 1;
+            }
+            if k >= 2 && k * p > best.0 * best.1 {
+                best = (p, k);
+            }
+        }
+        if best.0 * best.1 >= 8 {
+            if !lit.is_empty() {
+                out.push((1, std::mem::take(&mut lit)));
+            }
+            out.push((best.1, b[i..i + best.0].to_vec()));
+            i += best.0 * best.1;
+        } else {
+            lit.push(b[i]);
+            i += 1;
+        }
+    }
+    if !lit.is_empty() {
+        out.push((1, lit));
+    }
+    out
+}
+
+fn g_lvv(v: &VV) -> String {
+    match v {
+        VV::S(s) => format!("LVS {}", g_pieces(&rle_bytes(s.as_bytes()))),
+        VV::M(l) => {
+            let mut runs: Vec<(usize, &String)> = vec![];
+            for s in l {
+                match runs.last_mut() {
+                    Some((n, p)) if *p == s => *n += 1,
+                    _ => runs.push((1, s)),
+                }
+            }
+            format!("LVM {}", g_list(&runs, |(n, s)| format!("({},{})", n, g_pieces(&rle_bytes(s.as_bytes())))))
+        }
+    }
+}
+fn g_lobs(o: &Ob) -> String {
+    match o {
+        Ob::Deliver { idx, vals } => format!("LDeliver {} {}", idx, g_list(vals, g_lvv)),
+        Ob::Status(c) => format!("LStatus {}", c),
+        Ob::Panic => "LPanic".to_string(),
+    }
 }
 
 fn sweep2_paths(prefix: &str, upper: bool, lead: u8) -> Vec<String> {
@@ -512,6 +604,66 @@ fn exec(ctx: &mut Ctx, case: &Case) -> Line {
                 obs: json!({"n": obs.len(), "delivered": ndel, "refused_400": n400,
                             "first_path": paths[0], "last_path": paths[paths.len() - 1],
                             "first": obs.iter().take(4).collect::<Vec<_>>()}),
+                coq,
+                tags,
+                nontrivial: true,
+            }
+        }
+        Case::Large { table, equiv, live, paths, dims, tag } => {
+            assert!(*table < TABLES.len(), "table id");
+            let strings: Vec<String> = paths.iter().map(expand_pieces).collect();
+            let mut obs = vec![];
+            let mut nrej = 0;
+            let mut items = vec![];
+            for (p, text) in paths.iter().zip(&strings) {
+                let gp = g_pieces(&p.iter().map(|(n, c)| (*n, c.as_bytes().to_vec())).collect::<Vec<_>>());
+                if *live {
+                    if ctx.live.is_none() {
+                        ctx.live = Some(LiveServers::new());
+                    }
+                    let rej = hyper_rejects(text.as_bytes());
+                    if rej {
+                        nrej += 1;
+                    }
+                    let o = ctx.live.as_mut().unwrap().get(*table, text.as_bytes());
+                    items.push(format!("({}, {}, {})", g_bool(rej), gp, g_lobs(&o)));
+                    obs.push(o);
+                } else {
+                    let o = ctx.look(*table, text);
+                    items.push(format!("({}, {})", gp, g_lobs(&o)));
+                    obs.push(o);
+                }
+            }
+            let coq = if *live {
+                format!("(CLargeLive {} {})", g_table(*table), g_list(&items, |s| s.clone()))
+            } else {
+                format!("(CLarge {} {} {})", g_table(*table), g_bool(*equiv), g_list(&items, |s| s.clone()))
+            };
+            let group = if tag.is_empty() { "large" } else { tag.as_str() };
+            let mut tags = vec![format!("group:{}", group), format!("table:{}", table)];
+            for d in dims {
+                tags.push(format!("{}:{}", if *live { "large-live" } else { "large" }, d));
+            }
+            ob_tags(if *live { "large-live-outcome" } else { "large-outcome" }, &obs, &mut tags);
+            let n400 = obs.iter().filter(|o| **o == Ob::Status(400)).count();
+            let ndel = obs.iter().filter(|o| matches!(o, Ob::Deliver { .. })).count();
+            let summary: Vec<serde_json::Value> = obs
+                .iter()
+                .map(|o| match o {
+                    Ob::Deliver { idx, vals } => json!({"delivered_to": idx, "values": vals.iter().map(|v| match v {
+                        VV::S(s) => json!({"single_len": s.len()}),
+                        VV::M(l) => json!({"segments": l.len(), "longest": l.iter().map(|x| x.len()).max().unwrap_or(0)}),
+                    }).collect::<Vec<_>>()}),
+                    Ob::Status(c) => json!({"status": c}),
+                    Ob::Panic => json!("panic"),
+                })
+                .collect();
+            Line {
+                group: static_str(group),
+                case: serde_json::to_value(case).unwrap(),
+                obs: json!({"n": obs.len(), "delivered": ndel, "refused_400": n400, "hyper_refused_class": nrej,
+                            "raw_lengths": strings.iter().map(|x| x.len()).collect::<Vec<_>>(),
+                            "outcomes": summary}),
                 coq,
                 tags,
                 nontrivial: true,
@@ -1027,12 +1179,158 @@ fn gen_live(cases: &mut Vec<Case>, rng: &mut Rng, n_packs: usize) {
     }
 }
 
+const LARGE_SIZES: &[usize] = &[
+    15, 16, 17, 31, 32, 33, 63, 64, 65, 127, 128, 129, 255, 256, 257, 1023, 1024, 1025, 4095, 4096, 4097, 8191, 8192,
+    8193,
+];
+/// thorough only.  65534 is the longest request target http::Uri accepts
+/// (hyper answers anything longer itself); live targets stay at or below it.
+const LARGE_SIZES_THOROUGH: &[usize] = &[16383, 16384, 16385, 32767, 32768, 32769, 65533, 65534, 65535, 65536, 65537];
+const MAX_LIVE_TARGET: usize = 65534;
+
+fn pc(n: usize, c: &str) -> (usize, String) {
+    (n, c.to_string())
+}
+
+/// The deterministic large-scope slice: every size-like dimension of a
+/// request path pushed across the round numbers in `sizes` (taken three at
+/// a time: k-1, k, k+1).
+fn gen_large(cases: &mut Vec<Case>, sizes: &[usize]) {
+    // each path carries the size it realises (0: none, e.g. the plain spelling)
+    let mut push = |table: usize, equiv: bool, dim: &str, paths: Vec<(usize, Pieces)>| {
+        let dims_of = |ps: &[(usize, Pieces)]| -> Vec<String> {
+            let mut ns: Vec<usize> = ps.iter().map(|(n, _)| *n).filter(|n| *n > 0).collect();
+            ns.sort();
+            ns.dedup();
+            ns.iter().map(|n| format!("{}:{}", dim, n)).collect()
+        };
+        cases.push(Case::Large {
+            table,
+            equiv,
+            live: false,
+            paths: paths.iter().map(|(_, p)| p.clone()).collect(),
+            dims: dims_of(&paths),
+            tag: format!("large-{}", dim),
+        });
+        // the same through hyper, where the request target may be that long
+        let wire: Vec<(usize, Pieces)> = paths
+            .into_iter()
+            .filter(|(_, p)| p.iter().map(|(n, c)| n * c.len()).sum::<usize>() <= MAX_LIVE_TARGET)
+            .collect();
+        if wire.iter().any(|(n, _)| *n > 0) {
+            cases.push(Case::Large {
+                table,
+                equiv: false,
+                live: true,
+                dims: dims_of(&wire),
+                paths: wire.into_iter().map(|(_, p)| p).collect(),
+                tag: format!("large-live-{}", dim),
+            });
+        }
+    };
+    for &n in sizes {
+        // number of consecutive slashes: spellings of /a/b (and of /)
+        push(
+            0,
+            true,
+            "slashes",
+            vec![
+                (0, vec![pc(1, "/a/b")]),
+                (n, vec![pc(n, "/"), pc(1, "a/b")]),
+                (n, vec![pc(1, "/a"), pc(n, "/"), pc(1, "b")]),
+                (n, vec![pc(1, "/a/b"), pc(n, "/")]),
+                (n, vec![pc(n, "/"), pc(1, "a"), pc(n, "/"), pc(1, "b"), pc(n, "/")]),
+            ],
+        );
+    }
+    for tri in sizes.chunks(3) {
+        let mut segs = vec![];
+        let mut segs_rest = vec![];
+        let mut plain = vec![];
+        let mut var1 = vec![];
+        let mut enc = vec![];
+        let mut escs = vec![];
+        let mut late_dot = vec![];
+        let mut late_utf8 = vec![];
+        let mut deep = vec![];
+        let mut straddle = vec![];
+        for &n in tri {
+            // number of segments (also: only slashes, doubled slashes)
+            segs.push((n, vec![pc(n, "/a")]));
+            segs.push((n, vec![pc(n, "//a"), pc(1, "//")]));
+            segs.push((n, vec![pc(n, "/%61")]));
+            segs.push((n, vec![pc(n, "/")]));
+            segs_rest.push((n, vec![pc(1, "/w/x"), pc(n, "/a")]));
+            segs_rest.push((n, vec![pc(1, "/w"), pc(n, "/a")]));
+            // length of one segment, plain
+            plain.push((n, vec![pc(1, "/"), pc(n, "a")]));
+            plain.push((n, vec![pc(1, "/"), pc(n, ".")]));
+            plain.push((n, vec![pc(1, "/b/"), pc(n, "a"), pc(1, "/c")]));
+            var1.push((n, vec![pc(1, "/v/"), pc(n, "a")]));
+            var1.push((n, vec![pc(1, "/v/x/"), pc(n, "%61")]));
+            // ... fully percent-encoded: raw length 3n, decoded length n
+            enc.push((n, vec![pc(1, "/"), pc(n, "%61")]));
+            enc.push((n, vec![pc(1, "/"), pc(n, "%4a")]));
+            enc.push((n, vec![pc(1, "/"), pc(n, "%4A")]));
+            enc.push((n, vec![pc(1, "/"), pc(n, "%C3%a9")]));
+            // number of escapes in one segment: encoded slashes, dots, percents
+            escs.push((n, vec![pc(1, "/"), pc(n, "x%2F")]));
+            escs.push((n, vec![pc(1, "/"), pc(n, "%2f")]));
+            escs.push((n, vec![pc(1, "/"), pc(n, "%2e")]));
+            escs.push((n, vec![pc(1, "/"), pc(n, "%25")]));
+            escs.push((n, vec![pc(1, "/"), pc(n, "%252e")]));
+            // a dot segment as the n-th segment, in several spellings
+            late_dot.push((n, vec![pc(n - 1, "/a"), pc(1, "/%2e")]));
+            late_dot.push((n, vec![pc(n - 1, "/a"), pc(1, "/..")]));
+            late_dot.push((n, vec![pc(n - 1, "/a"), pc(1, "/%2E%2e"), pc(3, "/b")]));
+            late_dot.push((n, vec![pc(n - 1, "/a"), pc(1, "/."), pc(n, "/b")]));
+            late_dot.push((n, vec![pc(n - 1, "/a"), pc(1, "/%2e%2e%2e")])); // three dots: not a dot segment
+            // a segment that is not UTF-8 as the n-th segment
+            late_utf8.push((n, vec![pc(n - 1, "/a"), pc(1, "/%ff")]));
+            late_utf8.push((n, vec![pc(n - 1, "/a"), pc(1, "/%c3")]));
+            late_utf8.push((n, vec![pc(n - 1, "/a"), pc(1, "/%ed%a0%80"), pc(2, "/b")]));
+            late_utf8.push((n, vec![pc(n - 1, "/a"), pc(1, "/%c3%a9")])); // valid
+            // an invalid byte at offset n of one long segment
+            deep.push((n, vec![pc(1, "/"), pc(n, "a"), pc(1, "%ff"), pc(5, "a")]));
+            deep.push((n, vec![pc(1, "/"), pc(n, "%61"), pc(1, "%80")]));
+            deep.push((n, vec![pc(1, "/"), pc(n, "a"), pc(1, "%c0%af")]));
+            deep.push((n, vec![pc(1, "/"), pc(n, "a"), pc(1, "%c3%a9")])); // valid
+            deep.push((n, vec![pc(1, "/"), pc(n, "a"), pc(1, "%2f..")])); // decoded "/.." inside: stays inside
+            // multi-byte characters straddling decoded offset n (bytes n-1 | n)
+            for (ch, escd) in [("é", "%c3%a9"), ("€", "%E2%82%ac"), ("😀", "%f0%9F%98%80")] {
+                let k = ch.len();
+                for j in 1..k {
+                    if n < j {
+                        continue;
+                    }
+                    straddle.push((n, vec![pc(1, "/"), pc(n - j, "a"), pc(1, ch), pc(1, "z")]));
+                    straddle.push((n, vec![pc(1, "/"), pc(n - j, "a"), pc(1, escd), pc(1, "z")]));
+                    // cut at the boundary: the first j bytes only
+                    straddle.push((n, vec![pc(1, "/"), pc(n - j, "a"), pc(1, &escd[..3 * j]), pc(1, "z")]));
+                }
+            }
+        }
+        push(0, false, "segments", segs);
+        push(2, false, "segments-rest", segs_rest);
+        push(0, false, "seglen-plain", plain);
+        push(1, false, "seglen-variable", var1);
+        push(0, false, "seglen-encoded", enc);
+        push(0, false, "escapes", escs);
+        push(0, false, "late-dot-segment", late_dot);
+        push(0, false, "late-bad-utf8-segment", late_utf8);
+        push(0, false, "deep-invalid-byte", deep);
+        push(0, false, "utf8-straddle", straddle);
+    }
+}
+
 fn gen(opts: &Opts) -> Vec<Case> {
     let mut rng = Rng::new(opts.seed);
     let mut cases = vec![];
     gen_exhaustive(&mut cases);
     gen_two_byte(&mut cases, false, 0, "utf8-2byte-all");
+    gen_large(&mut cases, LARGE_SIZES);
     if opts.thorough {
+        gen_large(&mut cases, LARGE_SIZES_THOROUGH);
         // the same sweep in upper-case hex as the value of a single variable
         gen_two_byte(&mut cases, true, 1, "utf8-2byte-all-variable");
         // embedded after a literal character
@@ -1066,6 +1364,10 @@ fn gen(opts: &Opts) -> Vec<Case> {
         Case::Live { targets, .. } => targets.iter().map(|t| t.len() / 2 + 8).sum::<usize>(),
         Case::Sweep2 { lead, prefix, .. } => if *lead < 128 && prefix.len() <= 3 { 2500 } else { 600 },
         Case::Place { .. } => 100,
+        Case::Large { paths, live, .. } => {
+            let bytes: usize = paths.iter().map(|p| p.iter().map(|(n, c)| n * c.len()).sum::<usize>()).sum();
+            200 + bytes / if *live { 40 } else { 80 }
+        }
     };
     let mut idx: Vec<usize> = (0..cases.len()).collect();
     idx.sort_by_key(|i| (std::cmp::Reverse(size(&cases[*i])), *i));
